@@ -26,6 +26,7 @@ import Restful.Lemmas.TieImpDetect
 import Restful.Lemmas.TieImpCurlySel
 import Restful.Lemmas.TieImpJsrSel
 import Restful.Lemmas.TieImpSelect
+import Restful.Lemmas.TieImpBuild
 namespace Restful
 namespace Props
 variable (E : ReEnv)
@@ -444,3 +445,5 @@ end Restful
 -- also: Restful.TieImp.routeCurly_eq_sel
 -- also: Restful.TieImp.curly_select_route
 -- also: Restful.TieImp.jsr_select_route
+-- also: Restful.TieImp.build_route
+-- also: Restful.TieImp.copy_defaults
